@@ -283,3 +283,118 @@ def c17_tape(check, pid, tier, seed):
         info["props"] = {"C17"}
     return cov, reported, int(tot.get("runs", 0)), len(hashes)
 
+
+
+# ------------------------------------------------------------------------------------------- Miri-scheduled scenarios
+
+MIRI_CLASS = {"C02": "c02", "C03": "c03", "C08": "c08", "C09": "c09"}
+
+def _miri_cmd(check, cls, seed, lo, hi, mseed, rate):
+    env = dict(os.environ)
+    env["CARGO_NET_OFFLINE"] = "true"
+    env.pop("RUSTFLAGS", None)
+    env["MIRIFLAGS"] = f"-Zmiri-disable-stacked-borrows -Zmiri-preemption-rate={rate} -Zmiri-seed={mseed}"
+    env["VERIF_REPO"] = check.REPO
+    cmd = ["cargo", "+nightly", "miri", "run", "--offline", "--quiet", "--target-dir", os.path.join(check.TARGET, "miri"), "--", cls, str(seed), str(lo), str(hi)]
+    return cmd, env
+
+def miri_attribute(pid_of_class, stderr):
+    """Which properties a Miri report is evidence against."""
+    text = stderr
+    destroy = ("deallocation" in text) or ("drop_slow" in text) or ("drop_in_place" in text)
+    unwrap = ("try_unwrap" in text) or ("into_inner" in text) or ("unwrap_or_clone" in text)
+    props = set()
+    if "Data race" in text:
+        if unwrap:
+            props |= {"C09", "C03"}
+        elif destroy:
+            props |= {"C02", "C01"}
+        else:
+            props |= {pid_of_class, "C03"}
+    elif "has been freed" in text or "dangling" in text or "use-after-free" in text.lower():
+        props |= {"C01", "C02", pid_of_class}
+    elif "memory leaked" in text or "leak" in text.lower():
+        props |= {"C01", pid_of_class}
+    else:
+        props |= {pid_of_class}
+    return props
+
+def miri_engine(check, pid, tier, seed):
+    """Generated 2-3 thread scenarios on real threads inside Miri: Miri's seeded scheduler and
+    weak-memory emulation decide the execution, its data-race detector is the oracle.
+    Returns (coverage dict, reported infos, evaluations)."""
+    cls = MIRI_CLASS[pid]
+    t0 = time.time()
+    r = subprocess.run([sys.executable, os.path.join(check.HERE, "tools", "gen_shadow.py")], env=dict(os.environ, VERIF_REPO=check.REPO))
+    lock = os.path.join(check.HERE, "mirisim", "Cargo.lock")
+    if not os.path.exists(lock):
+        import shutil
+        shutil.copy(os.path.join(check.HERE, "sim", "Cargo.lock"), lock)
+    mdir = os.path.join(check.HERE, "mirisim")
+    # warm-up / availability probe (also builds the Miri sysroot and the crate once)
+    cmd, env = _miri_cmd(check, cls, seed, 0, 1, 0, 0.1)
+    try:
+        p = subprocess.run(cmd, cwd=mdir, env=env, stdout=subprocess.PIPE, stderr=subprocess.PIPE, text=True, timeout=1500)
+    except Exception as ex:
+        return {"miri_scheduled": {"skipped": f"cargo miri could not be started: {ex}"}}, [], 0
+    if p.returncode != 0 and "RUN-OK" not in p.stdout and "Undefined Behavior" not in p.stderr and "VIOLATION-RECORD" not in p.stdout:
+        return {"miri_scheduled": {"skipped": "cargo +nightly miri is not usable here: " + (p.stderr.strip().splitlines() or ["?"])[-1][:200]}}, [], 0
+    nw = check.NCPU
+    per = max(1, int((150 if tier == "quick" else 4000) * check.SCALE))
+    rates = [0.05, 0.1, 0.25, 0.5]
+    jobs = []
+    for w in range(nw):
+        lo, hi = w * per, (w + 1) * per
+        mseed = (seed * 31 + w * 7919) % 1000003
+        rate = rates[w % len(rates)]
+        cmd, env = _miri_cmd(check, cls, seed, lo, hi, mseed, rate)
+        pr = subprocess.Popen(cmd, cwd=mdir, env=env, stdout=subprocess.PIPE, stderr=subprocess.PIPE, text=True)
+        jobs.append((pr, w, lo, hi, mseed, rate))
+    done, reported, ub_reports = 0, [], 0
+    os.makedirs(check.REPLAYS, exist_ok=True)
+    for pr, w, lo, hi, mseed, rate in jobs:
+        try:
+            out, err = pr.communicate(timeout=3600)
+        except subprocess.TimeoutExpired:
+            pr.kill()
+            check.harness_error(f"miri worker {w} timed out")
+        begins = [l for l in out.splitlines() if l.startswith("BEGIN")]
+        last = int(begins[-1].split("\t")[2]) if begins else lo
+        if pr.returncode == 0 and "RUN-OK" in out:
+            done += hi - lo
+            continue
+        done += max(0, last - lo)
+        ub = [l for l in err.splitlines() if "Undefined Behavior" in l or "memory leaked" in l]
+        vr = [l for l in out.splitlines() if l.startswith("VIOLATION-RECORD")]
+        if not ub and not vr:
+            tail = " | ".join(err.strip().splitlines()[-3:])
+            check.harness_error(f"miri worker {w} ended with status {pr.returncode} without a report: {tail[:300]}")
+        ub_reports += 1
+        cls_name = "miri:" + (ub[0].split("Undefined Behavior:")[1].strip()[:80] if ub and "Undefined Behavior:" in ub[0] else (vr[0].split("\t")[1] if vr else "report"))
+        detail = (ub[0].strip() if ub else vr[0])[:300] + f" (scenario class {cls}, scenario index {last}, miri seed {mseed}, pre-emption rate {rate})"
+        path = os.path.join(check.REPLAYS, f"{pid}-miri-{cls}-{seed}-{last}-{mseed}.replay")
+        with open(path, "w") as f:
+            f.write(f"trisim-miri v1\nclass {cls}\nseed {seed}\nfrom {lo}\nto {last + 1}\nmiri-seed {mseed}\npreemption {rate}\n# class: {cls_name}\n# detail: {detail}\n")
+            f.write("# " + "\n# ".join(err.strip().splitlines()[:40]) + "\n")
+        props = miri_attribute(pid, err)
+        info = dict(cls=cls_name, detail=detail, replay=path, props=props)
+        if pid in props:
+            reported.append(info)
+        else:
+            check.log(f"note: the Miri-scheduled scenarios of {pid} hit a report attributed to {sorted(props)}: {detail}")
+    wall = time.time() - t0
+    cov = {"miri_scheduled": {
+        "what": "generated 2-3 thread clone/read/convert/drop (+ class-specific) scenarios on real threads inside Miri; Miri's seeded scheduler and weak-memory emulation decide the execution, its data-race / use-after-free / leak detection is the oracle; it also sees the library's own non-atomic accesses, which the baton simulator cannot",
+        "scenario_class": cls, "scenarios_executed": done, "worker_processes": nw, "scenarios_per_worker": per,
+        "miri_seeds": "(VERIF_SEED*31 + worker*7919) mod 1000003", "preemption_rates": rates, "reports": ub_reports, "wall_s": round(wall, 1),
+        "flags": "-Zmiri-disable-stacked-borrows (the aliasing model is outside the properties)"}}
+    return cov, reported[:4], done
+
+def miri_replay(check, path):
+    kv = dict(l.split(None, 1) for l in open(path).read().splitlines() if l and not l.startswith("#") and " " in l)
+    cmd, env = _miri_cmd(check, kv["class"], int(kv["seed"]), int(kv["from"]), int(kv["to"]), int(kv["miri-seed"]), kv["preemption"])
+    subprocess.run([sys.executable, os.path.join(check.HERE, "tools", "gen_shadow.py")], env=dict(os.environ, VERIF_REPO=check.REPO))
+    p = subprocess.run(cmd, cwd=os.path.join(check.HERE, "mirisim"), env=env, stdout=subprocess.PIPE, stderr=subprocess.PIPE, text=True)
+    sys.stdout.write(p.stdout[-2000:])
+    sys.stdout.write("\n".join(p.stderr.splitlines()[:30]) + "\n")
+    return not (p.returncode == 0 and "RUN-OK" in p.stdout)
